@@ -61,6 +61,15 @@ def monitor(run):
             continue
         if unacceptable is not None:
             yield f'tick {t}: suspension of container {unacceptable} accepted although it is not running at an operator boundary'
+        if prev:
+            for pi, pb in enumerate(prev):
+                batch = [a for a in e['cmd']['asg'] if a[4] == pi]
+                held = [c for c in pb['suspending']] + [c for c in pb['active'] if c['cid'] in {x[0] for x in cmds}]
+                if batch and held and (sum(a[1] for a in batch) > pb['avail_cpu'] or
+                                       (not r['over'] and sum(F(a[2]) for a in batch) > F(pb['avail_ram']))):
+                    yield (f'tick {t} pool {pi}: a batch needing {sum(a[1] for a in batch)} CPUs / '
+                           f'{float(sum(F(a[2]) for a in batch))} GB was accepted with {pb["avail_cpu"]} CPUs / {pb["avail_ram"]} GB '
+                           f'free: the allocation of a container that is still being written out was handed out early')
         # can_suspend exactly at operator boundaries (independent recount from the probed scripts)
         for p in e['pools']:
             for c in p['active']:
@@ -167,6 +176,7 @@ def run(ctx):
         ('G-exec-twins', 80, 1200, dict(twins=True)),
         ('G-exec-overlap', 80, 1200, dict(overlap=True)),
         ('G-exec-twins-odd', 60, 1000, dict(twins='odd')),
+        ('G-exec-early-reuse', 120, 2000, dict(p_bad=1.0, bad_kinds=['asg-early-reuse'])),
         ('G-exec-badsusp', 120, 2000, dict(p_bad=1.0, bad_kinds=['susp-mid', 'susp-mid', 'susp-suspending', 'susp-suspending', 'susp-suspending', 'susp-dup',
                                                                    'susp-unknown', 'susp-wrongpool'])),
     ], nontrivial=lambda run: any(e['cmd']['susp'] for e in run.trace))
